@@ -42,7 +42,11 @@ CELL_PLAIN = {"op": "cell", "act": "run", "text": "zz_w = 41 + 1", "names": [], 
 CELL_COMPLETE = {"op": "cell", "act": "cglobal", "text": "b64d", "names": [], "del": False}
 # a name known only through pyflyby.add_import() (the session-local database)
 CELL_REG = {"op": "cell", "act": "run", "text": "zz_q = zz_reg + 1\ndel zz_reg", "names": [["reg", "zz_reg"]], "del": True}
-CELLS = [CELL_IMPORT, CELL_PLAIN, CELL_COMPLETE, CELL_REG]
+# a known import whose module raises when imported: a failing import is not an internal error
+CELL_BAD = {"op": "cell", "act": "run", "text": "zz_b = badname", "names": [["bad", "badname"]], "del": False}
+# %run of a valid PEP 263 latin-1 script: pyflyby's own (UTF-8) read of it fails, which is the user's file's business
+CELL_RUN_LATIN1 = {"op": "cell", "act": "runfile", "text": "", "names": [], "del": False, "script": "latin1"}
+CELLS = [CELL_IMPORT, CELL_PLAIN, CELL_COMPLETE, CELL_REG, CELL_BAD, CELL_RUN_LATIN1]
 
 
 # ---------------------------------------------------------------------------------------------
@@ -50,11 +54,13 @@ CELLS = [CELL_IMPORT, CELL_PLAIN, CELL_COMPLETE, CELL_REG]
 
 def gen_cases(ctx, n):
     cases = []
-    alphabet = [{"op": o} for o in OPS] + [CELL_IMPORT, CELL_COMPLETE, {"op": "AddImport"}, CELL_REG]
+    alphabet = [{"op": o} for o in OPS] + [CELL_IMPORT, CELL_COMPLETE, {"op": "AddImport"}, CELL_REG, CELL_BAD, CELL_RUN_LATIN1,
+                                            {"op": "BreakDb"}, {"op": "RepairDb"}]
     for i in range(n):
         r = cm.rng(ctx.seed, "c14", i)
         k = r.choice([1, 2, 3, 4, 5, 6, 6, 6])
         pre = []
+        db_broken = False
         if i % 7 == 3:          # cycles: the F6 shape
             ops = [{"op": r.choice(["LoadExt", "Enable", "LoadFn"])}, {"op": r.choice(["UnloadExt", "Disable", "UnloadFn"])}] * 3
             ops = ops[:6]
@@ -65,6 +71,19 @@ def gen_cases(ctx, n):
                   ([r.choice(alphabet)] if r.random() < .5 else []) + [CELL_REG]
         else:
             ops = [r.choice(alphabet + ([CELL_PLAIN] if r.random() < .2 else [])) for _ in range(k)]
+        if i % 7 == 1 or i % 7 == 6:
+            # a cell whose processing makes pyflyby fail and withdraw (unparsable database file), between enables /
+            # disables / reloads; the API enable is refused afterwards, %load_ext forces; repairing the file
+            first = r.choice([{"op": "Enable"}, {"op": "LoadExt"}, {"op": "LoadFn"}])
+            mid = [r.choice([{"op": "Enable"}, {"op": "EnableAgain"}, {"op": "ReloadExt"}, {"op": "UnloadExt"}, {"op": "LoadExt"},
+                             {"op": "Disable"}, CELL_IMPORT, {"op": "RepairDb"}, {"op": "BreakDb"}]) for _ in range(r.randint(1, 4))]
+            ops = [first, r.choice([CELL_IMPORT, CELL_COMPLETE])] + mid + \
+                  [{"op": "RepairDb"}, {"op": r.choice(["LoadExt", "ReloadExt", "LoadFn"])}, CELL_IMPORT]
+            db_broken = True
+        elif i % 7 == 2:
+            # user-level problems that must leave the enabled state alone
+            ops = [{"op": r.choice(["LoadExt", "Enable"])}] + \
+                  [r.choice([CELL_RUN_LATIN1, CELL_BAD, CELL_IMPORT, CELL_PLAIN]) for _ in range(r.randint(1, 3))] + [CELL_IMPORT]
         if i % 4 == 1:          # start-up order of ipython_config.py / `py`: enable before the shell exists
             pre = [{"op": r.choice(PRE_OPS)} for _ in range(r.choice([0, 1, 1, 2, 2, 3]))] + [{"op": "Initialize"}]
             if r.random() < .6:
@@ -72,7 +91,7 @@ def gen_cases(ctx, n):
         jedi = (i % 10 == 9)    # the environment of F14
         level = "DEBUG" if (i % 25 == 24) else "ERROR"
         cases.append({"kind": "seq", "i": i, "ops": pre + ops + [{"op": "Disable"}], "jedi": jedi, "level": level,
-                      "preshell": bool(pre)})
+                      "preshell": bool(pre), "db_broken_at_start": db_broken})
     return cases
 
 
@@ -159,6 +178,8 @@ def c_nm(kind, name, bad_exc):
 
 
 def c_sop(o, bad_exc="ValueError"):
+    if o["op"] in ("BreakDb", "RepairDb"):
+        return "(SOp UserFileOp)"
     if o["op"] == "AddImport":
         return "(SOp (AddImport %s))" % cm.cN(NAME_ID["zz_reg"])
     if o["op"] != "cell":
@@ -197,6 +218,8 @@ def with_natural(o, ent, case):
     * a stub on symbol_needs_import armed from its k-th call on: where the call that raised sat - inside
       find_missing_imports (mid-visit of the user's AST: the model's SAnalysis), in auto_import_symbol (the
       model's SNeedsImport), or nowhere (fewer than k calls);
+    * what an (unarmed) load of the import database does right now - it raises when the database file is
+      unparsable and no earlier load is cached (SDbLoad);
     * a sys.path entry whose finder cannot enumerate its modules: ModuleHandle.list() raises OSError in every
       global-name completion pyflyby answers (SModuleList)."""
     if o.get("op") != "cell":
@@ -216,6 +239,9 @@ def with_natural(o, ent, case):
     nat = c.get("natural_parse")
     if nat:
         faults = ([["SParse", nat[0]]] + faults) if nat[1] == "construct" else (faults + [["SParse", nat[0]]])
+    if c.get("natural_db"):
+        # loading the import database fails right now (a broken database file, nothing cached)
+        faults.append(["SDbLoad", c["natural_db"]])
     if case.get("bad_finder") and o.get("act") == "cglobal":
         faults.append(["SModuleList", "OSError"])
     o["faults"] = faults
@@ -438,6 +464,40 @@ def oracle(case, impl, ref):
             if last[f] != want[f]:
                 bad.append(("no_residue", "after the final disable %s is %r, initially %r" % (f, last[f], want[f])))
                 break
+    # the two-state reference model: whether the importer is on is decided by the enable / disable / load / unload
+    # calls alone; a cell changes it only when pyflyby itself fails on it (here: the import database cannot be
+    # loaded); a problem of the user's files (%run of a latin-1 script, a known import that raises) does not
+    ref_on, ref_err, ref_pending = False, False, False
+    for k, (o, ent) in enumerate(zip(case["ops"], tr[1:]), 1):
+        prev, s = tr[k - 1]["snap"], ent["snap"]
+        shell = prev.get("has_shell", True)
+        name = o["op"]
+        if name in ("Enable", "EnableAgain"):
+            if not ref_on and not ref_pending and not ref_err:
+                ref_on, ref_pending = (True, False) if shell else (False, True)
+        elif name in ("LoadFn", "ReloadExt") or (name == "LoadExt" and not prev["loaded"]):
+            if name == "ReloadExt" and prev["loaded"]:
+                ref_on = ref_pending = False
+            if not ref_on and not ref_pending:
+                ref_on, ref_err = True, False
+        elif name in ("Disable", "UnloadFn") or (name == "UnloadExt" and prev["loaded"]):
+            ref_on = ref_pending = False
+        elif name == "Initialize" and not shell:
+            ref_on, ref_pending = ref_on or ref_pending, False
+        elif name == "cell":
+            c = ent["cell"]
+            needs_db = c["act"] in ("cglobal", "cattr") or any(True for _ in o.get("names", []))
+            if ref_on and c.get("natural_db") and needs_db:
+                ref_on, ref_err = False, True          # an internal error: pyflyby withdraws
+        if case.get("level") == "DEBUG" or case.get("jedi") and not impl["env"].get("pm") != "PmMissing":
+            continue
+        got_on = s["st"] == "ENABLED" or (s["st"] == "ENABLING" and not s.get("has_shell", True))
+        want_on = ref_on or ref_pending
+        if got_on != want_on:
+            bad.append(("two_state_model", "step %d (%s%s): the importer is %s (state %s, errored=%s) where the enable/disable "
+                        "history says %s" % (k, name, "/" + o["act"] + ("/" + o["script"] if o.get("script") else "") if name == "cell" else "",
+                                             "on" if got_on else "off", s["st"], s["errored"], "on" if want_on else "off")))
+            break
     # names registered with add_import() stay known across every off/on cycle
     reg_ok = False
     for k, (o, ent) in enumerate(zip(case["ops"], tr[1:]), 1):
@@ -447,6 +507,8 @@ def oracle(case, impl, ref):
         if o["op"] == "cell" and o.get("text") == CELL_REG["text"] and reg_ok and before["st"] == "ENABLED" \
            and not before["errored"]:
             c = ent["cell"]
+            if c.get("natural_db"):
+                continue      # the import database cannot be loaded: the importer rightly withdraws instead
             if c.get("error") is not None or "escaped" in c:
                 bad.append(("registered_kept", "step %d: a name registered with add_import() is no longer auto-imported while "
                             "ENABLED: %r" % (k, {x: c.get(x) for x in ("error", "escaped")})))
@@ -458,7 +520,8 @@ def oracle(case, impl, ref):
             c, rc = ent["cell"], rent["cell"]
             before = tr[k]["snap"]
             if o is CELL_IMPORT or o.get("text") == CELL_IMPORT["text"]:
-                if before["st"] == "ENABLED" and not before["errored"]:
+                if before["st"] == "ENABLED" and not before["errored"] and not c.get("natural_db"):
+                    # (with an unloadable import database the importer rightly withdraws instead)
                     if c.get("error") is not None or "escaped" in c:
                         bad.append(("enabled_autoimports", "step %d: cell reading a known name failed while ENABLED: %r"
                                     % (k + 1, {x: c.get(x) for x in ("error", "escaped", "stdout")})))
